@@ -1123,6 +1123,8 @@ func main() {
 	lap("utags")
 	trimCases(o)
 	lap("trim")
+	siteCases(o)
+	lap("sites")
 	var hs []hostile
 	hs = append(hs, frames(o)...)
 	hs = append(hs, fields(o)...)
